@@ -164,10 +164,13 @@ ADD_TEXT = {
  'C16': ' Continuation: BezPath::write_to is now a model function (Kurbo/SvgWrite.lean) compared byte for byte with the crate, round trip theorems restated for it incl. same segments for every path starting with MoveTo (Proofs/C16W.lean); the arc clause is proved over R for Arc.from_svg_arc (Proofs/C16A.lean): the arc starts at the current point, ends at the stated end point, sweep sign = sweep flag, |sweep| > pi iff large-arc (when the radii fit).',
 }
 ADD_NOTE = {
+ 'C13': ' Continuation: a defect of the dash iterator (ClosePath emitted before the last segment of a closed sub-path inside the first dash) was found, repaired (7127469), the model re-transcribed and every theorem re-proved (three restated for the better behaviour).',
+ 'C18': ' Continuation: PathSeg::tangents repaired (f4732a0) and re-transcribed; Proofs/C18T.lean: a returned tangent is zero iff all control points coincide.',
+ 'C14': ' Continuation: bounded work of the AGM loop of Ellipse::perimeter proved (Proofs/C11E.lean, pass counts tied to the crate counter); four NaN stroke inputs found by an independent lattice fuzzer on the unchanged tree, all repaired (4f2d379, 5ce92e3, 7127469, f4732a0).',
  'C03': ' Second-tier translation (GenEquiv2): QuadBez::arclen is re-translated from the source on every run and proved equal to the hand-written model.',
  'C05': ' Second-tier translation (GenEquiv2): approx_parabola_integral, approx_parabola_inv_integral, determine_subdiv_t.',
  'C10': ' Second-tier translation (GenEquiv2): point_on_circle, rotate_pt, sample_ellipse, CircleSegment arcs, Affine::svd, Ellipse::{private_new,center,radii,radii_and_rotation}, RoundedRectRadii::{abs,clamp}.',
- 'C11': ' Continuation (Kurbo/EllipsePerimeter.lean, Proofs/C11E.lean): Ellipse::perimeter (Kummer series, remainder bound, AGM loop) is in the model and agrees with the crate bit for bit incl. the AGM pass count; AGM invariants (c\' <= c/2, term\' <= term/2), an explicit pass bound for every accuracy > 0 (bounded work, C14), what the stopping rule guarantees, Kummer value/range scaling and the circle case; the known high-aspect finding is explained in exact arithmetic (division by the stale a_n instead of the AGM limit). Second-tier translation (GenEquiv2): Triangle::{area,perimeter,bounding_box}, Circle::{area,perimeter,winding}, CircleSegment::{area,perimeter,winding}, Ellipse::{area,winding,bounding_box,radii}, Affine::svd.',
+ 'C11': ' Continuation (Kurbo/EllipsePerimeter.lean, Proofs/C11E.lean): Ellipse::perimeter (Kummer series, remainder bound, AGM loop) is in the model and agrees with the crate bit for bit incl. the AGM pass count; AGM invariants (c\' <= c/2, term\' <= term/2), an explicit pass bound for every accuracy > 0 (bounded work, C14), what the stopping rule guarantees, Kummer value/range scaling and the circle case; the former known high-aspect finding was explained in exact arithmetic (division by the stale a_n instead of the AGM limit) and repaired (93c0fd9); model and theorems re-done for the repaired loop exit. Second-tier translation (GenEquiv2): Triangle::{area,perimeter,bounding_box}, Circle::{area,perimeter,winding}, CircleSegment::{area,perimeter,winding}, Ellipse::{area,winding,bounding_box,radii}, Affine::svd.',
  'C12': ' Second-tier translation (GenEquiv2): Affine::svd, Affine*Ellipse, Affine*Arc. Observation (theorem arc_image_mixed_radii, confirmed on the crate): an Arc whose radii have opposite signs is mapped to an arc traversed the wrong way - radii are magnitudes in the quantifier, documented only.',
  'C15': ' The hypothesis left in the quartic theorems: depressed_cubic_dominant returns a root of its cubic. Float cbrt of the model is now correctly rounded (as the crate\'s).',
  'C17': ' Second-tier translation (GenEquiv2): Line::crossing_point.',
